@@ -332,6 +332,58 @@ func (g *IG) FactsAt(target int) []Fact {
 			out = append(out, f)
 		}
 	}
+	return g.expandBoolPhis(out, 0)
+}
+
+// expandBoolPhis adds, for every fact "phi is true" where phi is the value of a
+// short-circuit && (all operands but one are the constant false), the facts
+// that the remaining operand is true and everything that dominates the block it
+// comes from; dually for "phi is false" of a short-circuit ||. go/ssa builds
+// such phis when a && / || expression is used as a value (e.g. as the case
+// expression of a tagless switch).
+func (g *IG) expandBoolPhis(facts []Fact, depth int) []Fact {
+	if depth > 4 {
+		return facts
+	}
+	out := facts
+	for _, f := range facts {
+		if f.Y != nil {
+			continue
+		}
+		phi, ok := f.X.(*ssa.Phi)
+		if !ok {
+			continue
+		}
+		want := f.Op == token.EQL // phi is true
+		var rest ssa.Value
+		restIdx := -1
+		okShape := true
+		for i, e := range phi.Edges {
+			if b, isC := constBool(e); isC {
+				if b == want {
+					okShape = false // a constant edge already decides the wanted value
+				}
+				continue
+			}
+			if rest != nil {
+				okShape = false
+			}
+			rest, restIdx = e, i
+		}
+		if !okShape || rest == nil {
+			continue
+		}
+		if nf, ok := condFact(rest, want); ok {
+			nf.Edge = f.Edge
+			out = append(out, nf)
+		}
+		pe := g.predEdges(phi.Block())
+		sub := g.FactsAt(pe[restIdx].From)
+		if ft, ok := g.EdgeFact(pe[restIdx].From, pe[restIdx].K); ok {
+			sub = append(sub, ft)
+		}
+		out = append(out, g.expandBoolPhis(sub, depth+1)...)
+	}
 	return out
 }
 
